@@ -185,6 +185,15 @@ def family(r):
         else:
             lines.append(use(call))
             live.add(f"f{j}")
+    if r.random() < 0.35:
+        # a function used ONCE that returns from inside a loop, and one used twice that is emitted after it (functions are laid
+        # out sorted by name): whatever the inliner decides about the first, it must not run on into the second
+        loop = r.choice(["    for i in range(a):\n        if stack[i] > 0:\n            return i", "    while a > 0:\n        a -= 1\n        if stack[a] > 0:\n            return a"])
+        defs = ["def aascan(a):", loop, "    return -1", "", "def zzshow(v):", "    d5.Setting = v", ""]
+        k = next(i for i, l in enumerate(lines) if l == "x = db.Setting")
+        lines[k:k] = defs
+        lines += ["found = aascan(x)", "zzshow(found)", "zzshow(found + 10)"]
+        live |= {"aascan", "zzshow"}
     lines.append("db.On = 0")
     return "\n".join(lines) + "\n", live
 
